@@ -30,6 +30,8 @@ def classify(case):
                                       ("absent-or-wrong" if q.get("method") else "?"))
     if st == 407 and not any(v.startswith("Basic") for v in hdr.get("Proxy-Authenticate", [])):
         return "407-without-challenge"
+    if case.get("prev_spec") and q.get("cred_tag") == "other-proxys-credentials" and st != 407:
+        return "credentials-accepted-by-another-proxy-of-the-process-open-this-one"
     tf = (case.get("spec") or {}).get("time_frame")
     clk = case.get("clock")
     if tf and clk:
